@@ -143,6 +143,8 @@ func c18Extra(path string, c *c18Case, which []string) (apis []c18API, sels map[
 			}
 			s, err := r.Text()
 			flat("pptx.Text", s, err)
+			s, err = r.TextWithOptions(pptx.ExtractOptions{IncludeNotes: true, IncludeTitles: true})
+			flat("pptx.Text+notes", s, err)
 			s, err = r.Markdown()
 			flat("pptx.Markdown", s, err)
 			doc, err := r.Document()
